@@ -115,6 +115,9 @@ func judgeScript(c *mcx.Ctx, cs Case) (obs, sig, class string) {
 		return obs + fmt.Sprintf("; expected stderr[%s]", summarise(wantErr)), "C14|stderr-incomplete-or-wrong|" + scriptClass(cs.Script), "terminates"
 	case !signalled && rv != float64(wantExit):
 		return obs + fmt.Sprintf("; expected return-value %d", wantExit), fmt.Sprintf("C14|wrong-exit-status|expected-%d", wantExit), "terminates"
+	case signalled && rv == 0:
+		// which value stands for "killed by a signal" is left open, but it is not the status of a successful command
+		return obs + "; the command was killed by a signal", "C14|signalled-command-reported-as-exit-0", "terminates"
 	}
 	return obs, "", "terminates"
 }
@@ -206,7 +209,7 @@ func enumerate(thorough bool, emit func(Case)) {
 			emit(Case{Part: "script", Script: s, RunDir: d})
 		}
 	}
-	vol := []string{"O8,x0", "E8,x0", "O4,E4,O4,E4,x0", "E8,O8,x1"}
+	vol := []string{"O8,x0", "E8,x0", "O4,E4,O4,E4,x0", "E8,O8,x1", "E32,x0", "O32,x0", "E32,O32,x3", "O16,E16,O16,E16,x0"}
 	if thorough {
 		vol = append(vol, "O128,x0", "E128,x0", "O64,E64,O64,E64,x0", "E128,O128,x255", "O128,E128,x0", "E1,O127,E127,x0")
 	}
@@ -271,7 +274,7 @@ func replay(c *mcx.Ctx, raw json.RawMessage) (string, string) {
 func init() {
 	mcx.Register(&mcx.Driver{
 		ID: "C14", Run: run, Replay: replay,
-		Rule: "every write script of <= 3 (thorough 4) operations from {write 1/2/3 units to stdout, write 1/2/3 units to stderr, close stdout, close stderr} (1 unit = half the kernel pipe capacity, verified with F_GETPIPE_SZ; 3 units exceed the pipe) followed by exit 0 / 3 / 255, executed by a real child process through RunCommand; plus exits by signal, scripts with pauses, existing / missing working directory, volume scripts (thorough: up to 4 MiB per stream), empty / nil / missing / non-executable commands and the by-products of InTotoRun. " +
+		Rule: "every write script of <= 3 (thorough 4) operations from {write 1/2/3 units to stdout, write 1/2/3 units to stderr, close stdout, close stderr} (1 unit = half the kernel pipe capacity, verified with F_GETPIPE_SZ; 3 units exceed the pipe) followed by exit 0 / 3 / 255, executed by a real child process through RunCommand; plus exits by signal, scripts with pauses, existing / missing working directory, volume scripts up to 1 MiB per stream (thorough: 4 MiB), empty / nil / missing / non-executable commands and the by-products of InTotoRun. " +
 			"Each write operation uses its own fill byte, so the capture is compared exactly. A hang is established structurally, never by a timeout: the child sits in write(2) on fd 1/2 (from /proc/<pid>/syscall) and the fill level of that pipe, read with FIONREAD on the parent's own end, equals the capacity and does not move over eight polls while RunCommand has not returned; a run without result after 60 s is inconclusive (exit 0, exhaustive:false). non-trivial = the script writes or exits non-zero. states = scripts, transitions = script operations.",
 		Assumptions: []string{"linux/amd64 (/proc/<pid>/syscall, write = syscall 1)", "the schedule between parent and child is whatever the kernel gives; deadlock on a full pipe does not depend on it"},
 	})
